@@ -466,3 +466,7 @@ Proof. reflexivity. Qed.
 
 Lemma created_file_usable d : N.land (created_mode 18 (File d)) 384 = 384%N.
 Proof. reflexivity. Qed.
+
+Lemma created_modes_usable :
+  N.land (created_mode 18 Dir) 448 = 448%N /\ forall d, N.land (created_mode 18 (File d)) 384 = 384%N.
+Proof. split; [reflexivity|intros; reflexivity]. Qed.
